@@ -141,6 +141,7 @@ type srvConn struct {
 	hijackReq   atomic.Bool  // a handler called ctx.Hijack for it
 	serveErr    atomic.Pointer[string]
 	serveDone   atomic.Bool
+	hjDone      atomic.Bool  // its HijackHandler returned
 	sawReject   atomic.Int32 // status of a complete 503/429 the client has parsed (set before it waits for the close)
 }
 
@@ -310,6 +311,7 @@ func (cm *caseMon) handler(ctx *fasthttp.RequestCtx) {
 			if keep {
 				hc.Close()
 			}
+			c.hjDone.Store(true)
 			cm.hjReturned.Add(1)
 		})
 	}
@@ -659,6 +661,13 @@ func runCase(idx int, spec caseSpec) *caseOut {
 				cm.violate("rejected-not-closed", fmt.Sprintf("conn %d (%s, ip#%d) was answered %d but the server has not closed it %v later (mode=%s Concurrency=%d MaxConnsPerIP=%d)", c.id, c.plan.Kind, c.ip, st, quiesceCap, spec.Mode, spec.Conc, spec.PerIP))
 			}
 		}
+		// a hijacked connection whose HijackHandler returned is closed by the server (KeepHijackedConns off);
+		// until then it stays registered for its IP
+		for _, c := range cm.conns {
+			if c.hjDone.Load() && !spec.KeepHijacked && c.closes.Load() == 0 {
+				cm.violate("hijack-released-not-closed", fmt.Sprintf("conn %d (ip#%d): HijackHandler returned but the server has not closed the connection %v later; per-IP counts %v (mode=%s MaxConnsPerIP=%d)", c.id, c.ip, quiesceCap, fasthttp.VerifPerIPCounts(s), spec.Mode, spec.PerIP))
+			}
+		}
 		stuck("client goroutines did not finish")
 		for _, pc := range pcs {
 			pc.Close() // let the abandoned goroutines go
@@ -853,7 +862,7 @@ func TestC12(t *testing.T) {
 	r.Assume("harness quiescence (clients gone, every server-side conn closed by the server, hijack handlers returned, StateNew == StateClosed+StateHijacked) is polled with a 30 s cap whose firing is inconclusive; afterwards the counters get 10 s to settle (only the instructions between Close and Unregister/release remain)")
 	r.Assume("idle/partial/abort clients do not read, so a rejection sent to them is not observed (counted as conns_unobserved)")
 
-	n := r.N(300, 20000)
+	n := r.N(800, 20000)
 	const batchSize = 4
 	nb := (n + batchSize - 1) / batchSize
 	hits := map[string]int{}
@@ -1008,10 +1017,10 @@ func TestC12(t *testing.T) {
 		r.Require("quiescence_counter_checks", n)
 		r.Require("quiescence_checks_serve", n/4)
 		r.Require("quiescence_checks_serveconn", n/4)
-		r.Require("handler_calls", n*5)
+		r.Require("handler_calls", n*2)
 		r.Require("resp_503", n)
 		r.Require("resp_429", n)
-		r.Require("hijack_handlers_returned", n/2)
+		r.Require("hijack_handlers_returned", n/4)
 		r.Require("cases_handler_peak_eq_concurrency", n/4)
 		r.Require("cases_perip_peak_eq_limit", n/4)
 	}
